@@ -33,3 +33,23 @@ Fixpoint while_fuel {S : Type} (fuel : nat) (cond : S -> bool) (body : S -> S) (
   | 0 => st
   | S f => if cond st then while_fuel f cond body (body st) else st
   end.
+
+(* ---- _add_dead: intervals as [start, stop] pairs, indexes as Z ------------------------------- *)
+Definition py_iv (p : Z * Z) : nat * nat := (Z.to_nat (fst p), Z.to_nat (snd p)).
+Definition py_append_iv (d : list (nat * nat)) (p : Z * Z) : list (nat * nat) := d ++ [py_iv p].
+(* bisect_left by the same contract as the model (number of leading smaller intervals of a sorted list) *)
+Definition py_bisect_left (d : list (nat * nat)) (p : Z * Z) : Z := Z.of_nat (bisect_left d (py_iv p)).
+(* d[i], i possibly negative; (0, 0) stands for IndexError *)
+Definition py_iv_at (d : list (nat * nat)) (i : Z) : nat * nat :=
+  match py_get d i with Some ab => ab | None => (0, 0) end.
+Definition py_iv_start (d : list (nat * nat)) (i : Z) : Z := Z.of_nat (fst (py_iv_at d i)).
+Definition py_iv_stop (d : list (nat * nat)) (i : Z) : Z := Z.of_nat (snd (py_iv_at d i)).
+Definition py_pos {A} (l : list A) (i : Z) : nat := Z.to_nat (if (i <? 0)%Z then (i + zlen l)%Z else i).
+(* x = d[i]; x[0] = v   /   x[1] = v *)
+Definition py_set_iv_start (d : list (nat * nat)) (i v : Z) : list (nat * nat) :=
+  set_nth (py_pos d i) (Z.to_nat v, snd (py_iv_at d i)) d.
+Definition py_set_iv_stop (d : list (nat * nat)) (i v : Z) : list (nat * nat) :=
+  set_nth (py_pos d i) (fst (py_iv_at d i), Z.to_nat v) d.
+(* d.insert(i, p) for i >= 0 *)
+Definition py_insert_iv (d : list (nat * nat)) (i : Z) (p : Z * Z) : list (nat * nat) :=
+  insert_at (Z.to_nat i) (py_iv p) d.
